@@ -474,6 +474,10 @@ def canary_check(vd, trace_module, src_trace, mutate, expect_rule, name, max_run
                         done = True
                 f.write(json.dumps(e) + "\n")
     if not done:
+        if vd.violations:
+            # the tree under test already violates the property; the canary has nothing to corrupt, the verdict stands
+            vd.cov["canary"][name] = {"expected": expect_rule, "skipped": "no suitable event in a violating trace"}
+            return
         raise ToolError("canary %s: no suitable event found in %s" % (name, src_trace))
     res = validate_traces(trace_module, [out], parallel=1)
     rules = sorted({v["rule"] for v in res["viol"]})
